@@ -117,6 +117,12 @@ theorem C04_depth_bounded_by_input (a : Ast) (p : Plans) (hfin : p.finite = true
     ∀ f, p.budget (c.remaining / 4) ≤ f → evalImpl a p f name c ≠ .outOfFuel :=
   fun f hf => budget_suffices a p hfin (c.remaining / 4) name c (by omega) f hf
 
+/-- **the bound is linear in the input**: `p.budget k ≤ (k + 1) · p.maxLocal 0`, so on a buffer of `n` bytes every decoder answers
+    at the budget `(n / 4 + 1) · L` where `L = p.maxLocal 0` is a constant of the specification (the largest one-level budget) -/
+theorem C04_depth_linear_in_input (a : Ast) (p : Plans) (hfin : p.finite = true) (name : String) (c : Cur) :
+    ∀ f, (c.remaining / 4 + 1) * p.maxLocal 0 ≤ f → evalImpl a p f name c ≠ .outOfFuel :=
+  fun f hf => C04_depth_bounded_by_input a p hfin name c f (Nat.le_trans (budget_linear p _) hf)
+
 /-- the budget of the list type `struct node { unsigned v; node *next; }` on buffers of under 4, 8, 12, 16 and 44 bytes: 4, 7, 10, 13, 34 —
     three budget units (one nesting of `node::try_from`: impl, field list, field) per 4 bytes -/
 example :
